@@ -109,6 +109,7 @@ class W1World(World):
             'io_faults': (prop == 'C01' and rng.random() < 0.4),
             'io_fault_rate': rng.choice([0.05, 0.15, 0.3]),
             'p_directed': rng.choice([0.0, 0.3, 0.6]),
+            'retain_pg': rng.random() < 0.4,
             'step_cap': 200,
         }
         return cfg
@@ -118,6 +119,8 @@ class W1World(World):
         self.prop = cfg['prop']
         self.cur_step = 0
         self.pending = []
+        self._args = []
+        self._pgs = {}
         self.state_hashes = set()
         self.mutations = 0
         self.faults_fired = 0
@@ -512,6 +515,13 @@ class W1World(World):
     # ------------------------------------------------------------------ execution
     def pg(self, b, gid):
         imp = self.imp[b]
+        if self.cfg.get('retain_pg'):
+            # the graph object a caller keeps in a variable across calls (and across delete / re-import of its id)
+            key = (b, gid, id(imp))
+            h = self._pgs.get(key)
+            if h is None:
+                h = self._pgs[key] = imp.graph_class(graph_id=gid, importer=imp)
+            return h
         return imp.graph_class(graph_id=gid, importer=imp)
 
     def touch(self, gid):
@@ -774,12 +784,30 @@ class W1World(World):
         return mv[1] if mv[0] == 'exc' else 'ok'
 
     # ---- structure
+    def arg(self, b, what, d):
+        """a fresh copy of a dict argument handed to the library; after the call it must be what it was (the caller's
+        dictionary is the caller's: C05, results and effects are those of the documented interface)"""
+        if d is None:
+            return None
+        c = dict(d)
+        self._args.append((b, what, c, dict(d)))
+        return c
+
+    def check_args(self, op):
+        for b, what, given, orig in self._args:
+            if canon(given) != canon(orig) or list(given) != list(orig):
+                self.flag('C05', 'argument_untouched', {'store': b, 'op': op, 'arg': what},
+                          '%s changed the %s dictionary it was given: was %s, is %s' %
+                          (op, what, canon(orig)[:200], canon(given)[:200]))
+        self._args = []
+
     def do_add_node(self, s):
         g, n = s['g'], s['n']
         self.touch(g)
         o = self.three_way(s, lambda b: self.pg(b, g).add_node(node_id=n, label=s['label'],
-                                                                 props=dict(s['props']) if s['props'] is not None else None),
+                                                                 props=self.arg(b, 'props', s['props'])),
                            lambda: self.model.add_node(g, n, s['label'], s['props']), True)
+        self.check_args('add_node')
         return {g}, o
 
     def do_delete_node(self, s):
@@ -793,8 +821,9 @@ class W1World(World):
         g = s['g']
         self.touch(g)
         o = self.three_way(s, lambda b: self.pg(b, g).add_link(node_a=s['a'], rel=s['rel'], node_b=s['b'],
-                                                                 props=dict(s['props']) if s['props'] is not None else None),
+                                                                 props=self.arg(b, 'props', s['props'])),
                            lambda: self.model.add_link(g, s['a'], s['rel'], s['b'], s['props']), True)
+        self.check_args('add_link')
         return {g}, o
 
     def do_update_node_property(self, s):
@@ -809,8 +838,10 @@ class W1World(World):
         g = s['g']
         self.touch(g)
         od = lambda: {k: s['props'][k] for k in (s.get('order') or sorted(s['props'])) if k in s['props']}
-        o = self.three_way(s, lambda b: self.pg(b, g).update_node_properties(node_id=s['n'], props=od()),
+        o = self.three_way(s, lambda b: self.pg(b, g).update_node_properties(node_id=s['n'],
+                                                                               props=self.arg(b, 'props', od())),
                            lambda: self.model.update_node_properties(g, s['n'], s['props']), True)
+        self.check_args('update_node_properties')
         return {g}, o
 
     def do_unset_node_property(self, s):
@@ -849,8 +880,10 @@ class W1World(World):
         self.touch(g)
         od = lambda: {k: s['props'][k] for k in (s.get('order') or sorted(s['props'])) if k in s['props']}
         o = self.three_way(s, lambda b: self.pg(b, g).update_link_properties(node_a=s['a'], node_b=s['b'],
-                                                                               kind=s['kind'], props=od()),
+                                                                               kind=s['kind'],
+                                                                               props=self.arg(b, 'props', od())),
                            lambda: self.model.update_link_properties(g, s['a'], s['b'], s['kind'], s['props']), True)
+        self.check_args('update_link_properties')
         return {g}, o
 
     # ---- reads
